@@ -3,6 +3,8 @@
 package pubsub
 
 import (
+	"time"
+
 	pb "github.com/libp2p/go-libp2p-pubsub/pb"
 	"github.com/libp2p/go-libp2p/core/peer"
 )
@@ -77,4 +79,16 @@ func verifPickPeer(m map[peer.ID]EventType) (peer.ID, bool) {
 		return "", false
 	}
 	return ids[i], true
+}
+
+// verifSleepJitter sleeps 1+k milliseconds, k in [0,n) chosen by the harness
+// through the pick hook, and reports true; without a harness it does nothing
+// and the caller draws its own random jitter.
+func verifSleepJitter(n int) bool {
+	f := verifHooks.pick
+	if f == nil {
+		return false
+	}
+	time.Sleep(time.Duration(1+f(0, n)) * time.Millisecond)
+	return true
 }
